@@ -3,7 +3,7 @@
 //@ module verif_enum_actions
 //@ harness e_exec_single kind=enum props=C09 thorough_bound=<<every set of three of the eight names x the same templates, statuses and modes>> bound=<<a directory with three files (three fixed sets covering all eight names) whose names are drawn from {plain, 'a b', it's, new-line, {}, -dash, star*, the non-UTF-8 byte 0xff} x argument templates {}, a{}b, {}{}, x, a literal + and pairs of them x CMD exit status 0 or 3, or a CMD that does not exist x the directory or the three files themselves as starting points x -exec / -execdir, real processes recording their argv and working directory>> label=<<-exec CMD ARGS ; runs CMD once per file in visit order with every {} in every argument replaced by the path (./basename and the parent as working directory for -execdir), every argument one argv element byte for byte; the action is true iff CMD exits 0; find's exit status stays 0>>
 //@ harness e_exec_plus kind=enum props=C08 thorough_bound=<<every set of three of the eight names x -quit position x -exec / -execdir>> bound=<<the same directory of three files (three fixed sets) x an optional -quit after the first, second or third file x -exec / -execdir, real processes>> label=<<-exec CMD {} + passes every path on which the action is reached exactly once, after the fixed arguments, in visit order, also when -quit ends the walk; -execdir batches contain ./basename entries of one directory and run there; the action is always true>>
-//@ harness e_exec_dirs kind=enum props=C08 bound=<<a tree r/{A/{a1,a2},B/{b1},C/{c1,c2}}; -execdir CMD {} + with -mindepth absent, 1 or 2, and -exec CMD {} + over every non-empty ordered selection of up to three of the starting points r/A, r/B, r/C, with or without -quit on the first file; real processes>> label=<<each -execdir invocation runs in one directory and contains only ./basename entries of that directory; over all invocations every reached file is delivered exactly once, also across several starting points>>
+//@ harness e_exec_dirs kind=enum props=C08 bound=<<a tree r/{A/{a1,a2},B/{b1},C/{c1,c2}}; -execdir CMD {} + with -mindepth absent, 1 or 2, plain or under !, ( ), -o, ',' or ! ( -a ) -o, and -exec CMD {} + over every non-empty ordered selection of up to three of the starting points r/A, r/B, r/C, with or without -quit on the first file; real processes>> label=<<each -execdir invocation runs in one directory and contains only ./basename entries of that directory; over all invocations every reached file is delivered exactly once, also across several starting points>>
 //@ harness e_quit_status kind=enum props=C01,C18 bound=<<one or two starting points x an action before -quit that succeeds (-print0) or fails (-fprint /dev/full) on the first entry>> label=<<once -quit is evaluated nothing further is evaluated for that entry or any later entry or starting point, whether or not an earlier action on the same entry failed; the exit status still reports the failure>>
 //@ harness e_delete_vanished kind=enum props=C10 bound=<<a file removed by an earlier -exec rm on the same entry, or deleted twice by ( -delete , -delete ); a non-empty directory as control>> label=<<an entry that cannot be removed (it is already gone, or it is a non-empty directory) makes -delete false for that entry and find's exit status non-zero>>
 //@ harness e_delete kind=enum props=C10 bound=<<a tree with two files, a nested directory with a file, a link to a file, a link to a directory and a link pointing outside, targets outside the tree and a file whose name is not valid UTF-8 x tests {-true, -name 'f*', -type f, -type l, -type d, -name sub, ! -name keep, -type f -empty} x -P / -H>> label=<<find T EXPR -delete removes exactly the entries that -depth EXPR -print reports on an identical tree (a non-empty directory stays and makes the exit status non-zero), never a link's target, and nothing outside>>
@@ -168,7 +168,19 @@ mod verif_enum_actions {
             args.push(rs.clone());
             args.push("-sorted".into());
             if mind > 0 { args.push("-mindepth".into()); args.push(mind.to_string()); }
-            args.extend(["-type", "f", "-execdir", "sh", "-c", &script, "sh", "{}", "+"].iter().map(|s| s.to_string()));
+            // the action under each combinator: where it sits in the expression tree must not change what is delivered
+            let wrap = pick(6);
+            let act: Vec<&str> = vec!["-execdir", "sh", "-c", &script, "sh", "{}", "+"];
+            let mut e: Vec<&str> = vec!["-type", "f"];
+            match wrap {
+                0 => e.extend_from_slice(&act),
+                1 => { e.push("!"); e.extend_from_slice(&act); }
+                2 => { e.push("("); e.extend_from_slice(&act); e.push(")"); }
+                3 => { e.push("("); e.push("-false"); e.push("-o"); e.extend_from_slice(&act); e.push(")"); }
+                4 => { e.push("("); e.extend_from_slice(&act); e.push(","); e.push("-true"); e.push(")"); }
+                _ => { e.push("("); e.push("!"); e.push("("); e.push("-true"); e.extend_from_slice(&act); e.push(")"); e.push("-o"); e.push("-true"); e.push(")"); }
+            }
+            args.extend(e.iter().map(|s| s.to_string()));
             for (dir, f) in files { want.push((format!("{rs}/{dir}"), f.to_string())); }
         } else {
             let n = 1 + pick(3);
@@ -262,6 +274,9 @@ mod verif_enum_actions {
         symlink("f1", t.join("lf")).unwrap();
         symlink("sub", t.join("ld")).unwrap();
         symlink("../outside/target", t.join("lout")).unwrap();
+        // names that end in a dot (only the entry "." itself is special to -delete)
+        std::fs::write(t.join("notes."), "").unwrap();
+        symlink("f1", t.join("link.")).unwrap();
         // a name that is not valid UTF-8
         std::fs::write(t.join(OsStr::from_bytes(b"x\xff.log")), "").unwrap();
         t
